@@ -65,6 +65,9 @@ def plan(tier, seed):
         for a, b in E.chunks(27 ** 2, 81):
             shards.append(("conv", 2, 3, a, b))
     shards.append(("parser",))
+    # files of several thousand samples (longer than one 64 KiB block of any chunked reader or writer)
+    for n, nf in ((4097, 2), (5000, 2), (8200, 4), (16400, 1), (16384, 3)):
+        shards.append(("convbig", n, nf))
     return shards
 
 
@@ -199,6 +202,11 @@ def conv_case(prog):
     from opfython.utils import converter
     from opfython.stream import loader, parser
     from opfython.core import Subgraph
+    if "gen" in prog:
+        # a large dataset given by its generator (several read/write blocks long)
+        n, nf = prog["gen"]["n"], prog["gen"]["nf"]
+        prog = dict(prog, ids=list(range(n)), labels=[1 + (i * 5 + i // 7) % 3 for i in range(n)],
+                    features=[[((i * 7 + f * 3) % 1000) / 8.0 - 20.0 for f in range(nf)] for i in range(n)])
     ids, labels, feats = prog["ids"], prog["labels"], prog["features"]
     # the SAME paths are re-used for every dataset of a run (a later conversion overwrites
     # the earlier files): results must depend on the file contents, not on the path
@@ -327,13 +335,15 @@ def run(shard, seed):
         progs = ({"kind": "seeds", "n": n, "seed": s} for s in range(shard[1]) for n in (1, 4, 7))
     elif kind in ("conv", "conv4"):
         progs = conv_programs(shard, seed)
+    elif kind == "convbig":
+        progs = [{"kind": "conv", "gen": {"n": shard[1], "nf": shard[2]}}]
     else:
         progs = ({"kind": "parser", "labels": list(l)} for L in (1, 2, 3, 4)
-                 for l in itertools.product(range(4), repeat=L))
+                 for l in itertools.product(range(-1, 4), repeat=L))
     first = True
     for prog in progs:
         try:
-            with horizon(10.0):
+            with horizon(300.0 if "gen" in prog else 10.0):
                 v = run_case(prog)
         except Horizon as hz:
             v = {"check": kind, "program": prog, "observed": str(hz), "allowed": "termination",
